@@ -1422,11 +1422,20 @@ Proof.
        split; [intros v Hv; cbn in Hv; intuition (subst; cbn; lia)|]; split; cbn; lia|]).
     apply Forall_nil. }
   split.
-  { unfold T_ok. split.
-    - apply Forall_forall. vm_compute. repeat constructor; try lia; try reflexivity; try (intros Hh; discriminate Hh);
-        try (left; split; reflexivity); try (right; reflexivity); try (intuition discriminate); try (eexists; reflexivity).
-    - intros t t' Ht Ht'. revert t' Ht'. apply Forall_forall. revert t Ht. apply Forall_forall.
-      vm_compute. repeat constructor; intros Hh; first [reflexivity | discriminate Hh]. }
+  { unfold T_ok. let L := eval vm_compute in (T_bus example_attr_bus) in change (T_bus example_attr_bus) with L. split.
+    - apply Forall_forall.
+      repeat (apply Forall_cons;
+        [unfold t_def; cbn [t_asg aa_def]; unfold wf_def, msg_cycle_att, msg_delay_att, msg_start_delay_att, msg_send_att, sig_start_att, sig_send_att;
+         first [exact I
+               | (split; [lia|intros Hh; first [discriminate Hh | (split; cbn; lia)]])
+               | (split; [reflexivity|split; [reflexivity|first [left; split; reflexivity|right; reflexivity]]])
+               | (split; [repeat constructor; cbn; intuition discriminate|eexists; reflexivity])]|]).
+      apply Forall_nil.
+    - match goal with |- forall t t', In t ?L -> _ =>
+        assert (HH : Forall (fun t => Forall (fun t' => tname t = tname t' -> t_def t = t_def t') L) L) end.
+      { repeat (apply Forall_cons; [repeat (apply Forall_cons; [intros Hh; first [reflexivity | (vm_compute in Hh; discriminate Hh)]|]); apply Forall_nil|]).
+        apply Forall_nil. }
+      intros t t' Ht Ht'. rewrite Forall_forall in HH. specialize (HH t Ht). rewrite Forall_forall in HH. apply HH; assumption. }
   split; [asgs_tac|]. split.
   { repeat (apply Forall_cons; [cbn [n_attrs]; asgs_tac|]). apply Forall_nil. }
   repeat (apply Forall_cons; [cbn [m_attrs m_sendtype m_signals]; split; [asgs_tac|]; split; [lia|];
